@@ -38,6 +38,14 @@ def gen(rng, tier):
     ds += rng.sample(G.all_dfas(3, 'a'), 80) if quick else G.all_dfas(3, 'a')
     ds += [G.random_dfa(rng, rng.randint(1, 5), rng.choice(['a', 'ab', '', '01', '1', 'a1', '_ε'])) for _ in range(120 if quick else 3000)]
     ds += [dict(d, Sigma=['0', '1'], delta=[[q, {'a': '0', 'b': '1'}[a], t] for q, a, t in d['delta']]) for d in (rng.sample(G.all_dfas(2, 'ab'), 40) if quick else G.all_dfas(2, 'ab'))]
+    for _ in range(60 if quick else 1200):
+        # several symbols lead from one state to the same target; the transition relation is listed symbol by symbol / shuffled
+        d = G.random_dfa(rng, rng.randint(1, 3), rng.choice(['abc', 'abcd', 'abc']), pfinal=0.5)
+        if rng.random() < 0.5:
+            d['delta'] = sorted(d['delta'], key=lambda t: (t[1], t[0]))
+        else:
+            rng.shuffle(d['delta'])
+        ds.append(d)
     for i, d in enumerate(ds):
         cases.append({'kind': 'dfa', 'D': G.retag(d, rng, allow_empty=True) if i % 6 == 1 and len(d['Q']) <= 6 else d})
     return cases
